@@ -242,6 +242,46 @@ func (m *impl) openProc() string {
 	return errName(m.q.SetMaxSegmentSize(int64(m.maxSeg)))
 }
 
+// tearFlush applies the first k bytes of the write segment.flush would issue for block b to
+// the newest segment file in dir.
+func tearFlush(dir string, b []byte, k int) error {
+	es, err := os.ReadDir(dir)
+	if err != nil {
+		return err
+	}
+	newest, best := "", uint64(0)
+	for _, e := range es {
+		if id, err := strconv.ParseUint(e.Name(), 10, 64); err == nil && id >= best {
+			newest, best = e.Name(), id
+		}
+	}
+	if newest == "" {
+		return nil
+	}
+	path := filepath.Join(dir, newest)
+	old, err := os.ReadFile(path)
+	if err != nil || len(old) < 8 {
+		return err
+	}
+	w := make([]byte, 8, 16+len(b))
+	binary.BigEndian.PutUint64(w, uint64(len(b)))
+	w = append(w, b...)
+	w = append(w, old[len(old)-8:]...) // flush rewrites the head offset after the new block
+	if k > len(w)-1 {
+		k = len(w) - 1
+	}
+	if k < 1 {
+		k = 1
+	}
+	fh, err := os.OpenFile(path, os.O_WRONLY, 0o644)
+	if err != nil {
+		return err
+	}
+	defer fh.Close()
+	_, err = fh.WriteAt(w[:k], int64(len(old)-8))
+	return err
+}
+
 // copyDir copies the queue's files (with their modification times) as a crash image.
 func copyDir(src, dst string) error {
 	if err := os.MkdirAll(dst, 0o755); err != nil {
@@ -357,6 +397,14 @@ func (m *impl) step(op string) (out string) {
 		img := fmt.Sprintf("%s.crash%d", strings.TrimRight(m.dir, "/"), m.crashes)
 		if err := copyDir(m.dir, img); err != nil {
 			return "err:image"
+		}
+		if len(f) == 5 && f[1] == "torn" {
+			// the crash interrupts the flush of one more block (never acknowledged): of the
+			// bytes that flush writes over the footer of the newest segment — length, block,
+			// new footer — only the first k reach the file
+			if err := tearFlush(img, payload(atoi(f[2]), atoi(f[3])), atoi(f[4])); err != nil {
+				return "err:tear"
+			}
 		}
 		m.q.Close()
 		m.olddirs = append(m.olddirs, m.dir)
@@ -510,6 +558,20 @@ func (Prop) Oracle(c fw.Case, out []string) fw.Verdict {
 		return true
 	}
 	const lostSig = "a block accepted under the buffered path is lost by a crash"
+	// a crash image in which the flush of one more block was torn: the blocks pending then
+	tornPending := map[int]bool{}
+	allTorn := func(ids []int) bool {
+		if len(ids) == 0 {
+			return false
+		}
+		for _, id := range ids {
+			if !tornPending[id] {
+				return false
+			}
+		}
+		return true
+	}
+	const tornSig = "a flush torn by a crash costs blocks that had been acknowledged and flushed before"
 	purged := false
 	lastCurrent := -1
 	open, sentinel := true, false
@@ -526,8 +588,13 @@ func (Prop) Oracle(c fw.Case, out []string) fw.Verdict {
 		switch f[0] {
 		case "reset":
 			pending, purged, lastCurrent, open, sentinel = nil, false, -1, true, false
-			unflushed, maybeLost = nil, map[int]bool{}
+			unflushed, maybeLost, tornPending = nil, map[int]bool{}, map[int]bool{}
 		case "crash":
+			if len(f) == 5 && f[1] == "torn" {
+				for _, id := range pending {
+					tornPending[id] = true
+				}
+			}
 			for _, id := range unflushed {
 				maybeLost[id] = true
 			}
@@ -575,6 +642,9 @@ func (Prop) Oracle(c fw.Case, out []string) fw.Verdict {
 					return fw.Verdict{OK: false, Why: fmt.Sprintf("op %d: current returned block %d which is not pending (pending %v)", i, id, pending), Signature: "delivered block not pending (duplicate or phantom)"}
 				}
 				if idx > 0 && !purged {
+					if allTorn(pending[:idx]) {
+						return fw.Verdict{OK: false, Why: fmt.Sprintf("op %d: current returned block %d; blocks %v, accepted and flushed before the crash that tore the flush of a later block, are gone", i, id, pending[:idx]), Signature: tornSig}
+					}
 					if allMaybeLost(pending[:idx]) {
 						return fw.Verdict{OK: false, Why: fmt.Sprintf("op %d: current returned block %d; blocks %v, accepted before it under the buffered path and not yet flushed when the crash image was taken, are gone", i, id, pending[:idx]), Signature: lostSig}
 					}
@@ -631,6 +701,9 @@ func (Prop) Oracle(c fw.Case, out []string) fw.Verdict {
 				continue // after an age purge the oracle no longer knows exactly what is pending; a closed queue holds nothing open
 			}
 			want := fmt.Sprint(len(pending) == 0)
+			if o != want && o == "true" && allTorn(pending) {
+				return fw.Verdict{OK: false, Why: fmt.Sprintf("op %d: Empty() = true, but blocks %v had been accepted and flushed before the crash that tore the flush of a later, never acknowledged block; they were never delivered", i, pending), Signature: tornSig}
+			}
 			if o != want && o == "true" && allMaybeLost(pending) {
 				return fw.Verdict{OK: false, Why: fmt.Sprintf("op %d: Empty() = true, but blocks %v were accepted (under the buffered path, not yet flushed when the crash image was taken) and never delivered", i, pending), Signature: lostSig}
 			}
@@ -642,6 +715,9 @@ func (Prop) Oracle(c fw.Case, out []string) fw.Verdict {
 		}
 	}
 	// the case ends with a full drain on an open queue: nothing accepted may be left behind
+	if len(pending) > 0 && !purged && open && sentinel && allTorn(pending) {
+		return fw.Verdict{OK: false, Why: fmt.Sprintf("blocks %v had been accepted and flushed before the crash that tore the flush of a later block; they were never delivered", pending), Signature: tornSig}
+	}
 	if len(pending) > 0 && !purged && open && sentinel && allMaybeLost(pending) {
 		return fw.Verdict{OK: false, Why: fmt.Sprintf("blocks %v were accepted under the buffered path, the crash image was taken before they were flushed, and they were never delivered", pending), Signature: lostSig}
 	}
